@@ -50,6 +50,7 @@ type State struct {
 	ghost    map[string]Term
 	visit    map[*ssa.BasicBlock]int
 	pc       []string
+	weak     string   // see Oblig.Weak
 	checked  []string // names of the obligations checked so far on this path (their goals are in pc)
 	defers   []deferred
 	nalloc   int
@@ -147,6 +148,7 @@ func (s *State) clone() *State {
 	}
 	n.pc = append(make([]string, 0, len(s.pc)+16), s.pc...)
 	n.checked = append(make([]string, 0, len(s.checked)+8), s.checked...)
+	n.weak = s.weak
 	n.defers = append([]deferred{}, s.defers...)
 	n.nalloc = s.nalloc
 	n.epoch = s.epoch
@@ -188,6 +190,7 @@ type Oblig struct {
 	Adapter string     // replay adapter chosen for this obligation
 	Classes []string   // known-finding classes for this obligation, evaluated in the obligation's state
 	Expect string      // "" => must be unsat (valid). "sat" => cover query
+	Weak     string    // non-empty: the path went through a loop of this inlined function, cut without an invariant
 	PathDeps []string  // names of the obligations checked earlier on this path, whose goals are assumed here
 }
 
@@ -231,6 +234,7 @@ type Unit struct {
 	dynAlias map[string]string
 	resultNames map[string]Term
 	usedBounded map[string]string // bounded-only clauses relied upon -> adapter
+	unbound     []unboundClause // clauses that could not be evaluated (see unboundClause)
 	usedEnsures map[string]bool   // in-module callee ensures relied upon (obligation names)
 }
 
@@ -440,6 +444,10 @@ func (u *Unit) load(s *State, a Addr) Term {
 		et := cellElemType(x.key)
 		var c Term
 		if _, ok := x.key.(*ssa.Alloc); ok {
+			c = u.ss.zero(et)
+		} else if g, isG := x.key.(*ssa.Global); isG && g.Pkg != nil && strings.HasPrefix(g.Pkg.Pkg.Path(), u.p.modulePath) && !u.p.everWritten[g] && !strings.HasSuffix(g.Name(), "$guard") {
+			// a package-level variable of the module that no code ever assigns (a hook that is nil by default) holds
+			// its zero value
 			c = u.ss.zero(et)
 		} else if g, isG := x.key.(*ssa.Global); isG {
 			ep := s.epoch
